@@ -569,7 +569,8 @@ def check_c12(tier, replay):
 SYNC_ACTIONS = ["AEdit", "AQuiesce", "AReqStatus", "AReqSync", "AMergeReply", "AReqScan", "AReqDiff",
                 "AReqPatch", "ARewindLocal"]
 SYNC_INVS = ["TypeOK", "QuiescentConverged", "NoLoss", "OnlyCommitted", "NoDup", "NoAcceptedDropped"]
-SYNC_DEVS = {"ScanLeafOnly": "QuiescentConverged", "LocateByHash": "QuiescentConverged"}
+SYNC_DEVS = {"ScanLeafOnly": "QuiescentConverged", "LocateByHash": "QuiescentConverged",
+             "PatchDropsAccepted": "NoAcceptedDropped"}
 _UNUSED = {
              "MergeNoDedup": "NoDup"}
 REQ_KIND = {"ReqStatus": "status", "ReqScan": "scan", "ReqDiff": "diff", "ReqPatch": "patch",
@@ -592,12 +593,24 @@ def sync_cfg(wd, name, consts, invariants=True, properties=True):
 
 
 def split_behaviours(edges, init_key):
-    out, cur = [], []
+    """Cut TLC's simulation output into behaviours: chains of edges from Init.
+    (TLC occasionally evaluates -- and therefore prints -- a transition twice;
+    an edge that does not continue the chain and does not start at Init is dropped.)"""
+    out, cur, cur_key = [], [], None
     for e in edges:
-        if json.dumps(e["from"], sort_keys=True) == init_key and cur:
-            out.append(cur)
-            cur = []
-        cur.append(e)
+        fk = json.dumps(e["from"], sort_keys=True)
+        tk = json.dumps(e["to"], sort_keys=True)
+        if cur and fk == cur_key:
+            cur.append(e)
+            cur_key = tk
+        elif cur and fk == json.dumps(cur[-1]["from"], sort_keys=True) and tk == cur_key:
+            continue   # the same transition printed twice
+        elif fk == init_key:
+            if cur:
+                out.append(cur)
+            cur, cur_key = [e], tk
+        else:
+            continue
     if cur:
         out.append(cur)
     return out
@@ -687,13 +700,15 @@ def sync_check(prop, tier, replay):
     # (2) every listed deviation still breaks its invariant on the model
     devs_on = sorted(d for d in SYNC_DEVS if d in all_known)
     for dev in devs_on:
+        if dev == "PatchDropsAccepted":
+            continue   # needs concurrency; its witness is checked by the C09 check
         cfg = sync_cfg(wd, "dev_" + dev, dict(base, Deviations=dev_set([dev])), properties=False)
         rr = vlib.run_tlc("MC_Sync", cfg, prop + "d" + dev, coverage=False, timeout_s=3000, heap="12g")
         if SYNC_DEVS[dev] not in rr.violated and not rr.violated:
             raise ToolError("deviation %s no longer breaks the model (stale finding)" % dev)
     # (3) behaviours of the code-faithful model (listed deviations on) by simulation
     edges = []
-    cfg = sync_cfg(wd, "sim", dict(base, Deviations=dev_set(devs_on), EmitEdges="TRUE"),
+    cfg = sync_cfg(wd, "sim", dict(base, Deviations=dev_set(devs_on), EmitEdges="TRUE", ScanLimit="32"),
                    invariants=False, properties=False)
     vlib.run_tlc("MC_Sync", cfg, prop + "s", coverage=False, workers=1, simulate=(nsim, 46),
                  timeout_s=600, tag_sink=lambda tag, obj: edges.append(obj) if tag == "EDGE" else None)
@@ -829,3 +844,105 @@ def check_c16(tier, replay):
                  "max_len": 40, "sample_paths": 150}]
     return account_check("C16", tier, replay, inst, rule, ACCOUNT_ASSUME, level="model_checking",
                          path_extra=extra)
+
+
+@register("C09")
+def check_c09(tier, replay):
+    """Concurrent syncs: Sync.tla in concurrent mode + gated replay."""
+    prop = "C09"
+    t0 = time.time()
+    wd = vlib.workdir("%s_%s" % (prop, tier))
+    all_known = {}
+    for p in ("C04", "C05", "C09"):
+        all_known.update(vlib.known_keys(p))
+    all_known.update(vlib.known_keys(prop))
+    scratch = vlib.scratch_base(prop)
+    devices = ["a", "b"]
+    if replay:
+        vlib.cargo_build()
+        v = json.load(open(replay))
+        d = v.get("detail", v)
+        pfile = os.path.join(wd, "replay.ndjson")
+        with open(pfile, "w") as f:
+            f.write(json.dumps(d["path"]) + "\n")
+        summ = vlib.run_harness([vlib.harness_bin("replay"), "sync", pfile, scratch, prop],
+                                env={"VERIF_KNOWN": ",".join(sorted(all_known))})
+        for x in summ["violations"]:
+            log("REPLAY-DIVERGENCE " + x["summary"][:1500])
+        return 1 if summ["violations"] else 0
+    base = {"Devices": '{"a", "b"}', "MaxEdits": "2", "Times": "{1, 2}", "Names": '{"n1"}',
+            "EditKinds": '{"new", "upd", "del"}', "ScanLimit": "2", "K": "2", "Mode": '"concurrent"',
+            "Deviations": "{}", "EmitEdges": "FALSE"}
+    nsim = 150 if tier == "quick" else 2000
+    # (1) exhaustive: every interleaving at request granularity of the 2-device instance
+    cfg = sync_cfg(wd, "prop", base)
+    r = vlib.run_tlc("MC_Sync", cfg, prop + "p", timeout_s=3000, heap="16g")
+    if r.violated:
+        raise ToolError("intended Sync spec (concurrent) violates %s" % r.violated)
+    for a in SYNC_ACTIONS:
+        if a not in r.coverage or r.coverage[a][1] == 0:
+            raise ToolError("vacuous: action %s never fired" % a)
+    states, trans = r.distinct, r.generated
+    cov = {a: list(r.coverage[a]) for a in SYNC_ACTIONS}
+    devs_on = sorted(d for d in SYNC_DEVS if d in all_known)
+    for dev in devs_on:
+        cfg = sync_cfg(wd, "dev_" + dev, dict(base, Deviations=dev_set([dev])), properties=False)
+        rr = vlib.run_tlc("MC_Sync", cfg, prop + "d" + dev, coverage=False, timeout_s=3000, heap="16g")
+        if not rr.violated:
+            raise ToolError("deviation %s no longer breaks the model (stale finding)" % dev)
+    # (2) interleavings of the code-faithful model by simulation, replayed through gated clients
+    edges = []
+    cfg = sync_cfg(wd, "sim", dict(base, Deviations=dev_set(devs_on), EmitEdges="TRUE", ScanLimit="32"),
+                   invariants=False, properties=False)
+    vlib.run_tlc("MC_Sync", cfg, prop + "s", coverage=False, workers=1, simulate=(nsim, 40),
+                 timeout_s=600, tag_sink=lambda tag, obj: edges.append(obj) if tag == "EDGE" else None)
+    if not edges:
+        raise ToolError("TLC emitted no behaviours")
+    init_key = json.dumps(edges[0]["from"], sort_keys=True)
+    behs = split_behaviours(edges, init_key)
+    vlib.cargo_build()
+    combos = [("fs", "fs"), ("db", "db"), ("fs", "db"), ("db", "fs")]
+    paths = []
+    for i, b in enumerate(behs):
+        steps = [{"act": e["act"], "args": e["args"], "res": e["res"], "dev": e.get("dev") or [],
+                  "to": {"log": e["to"]["log"], "srv": e["to"]["srv"], "pc": e["to"]["pc"]}} for e in b]
+        paths.append({"devices": devices, "concurrent": True, "client_backend": combos[i % 4][0],
+                      "server_backend": combos[i % 4][1], "steps": steps})
+    chunks = 12
+    files = [open(os.path.join(wd, "paths_%02d.ndjson" % i), "w") for i in range(chunks)]
+    for i, p in enumerate(paths):
+        files[i % chunks].write(json.dumps(p) + "\n")
+    for f in files:
+        f.close()
+    inputs = [os.path.join(wd, "paths_%02d.ndjson" % i) for i in range(chunks)
+              if os.path.getsize(os.path.join(wd, "paths_%02d.ndjson" % i)) > 0]
+    summ = vlib.run_harness_parallel(
+        lambda p: [vlib.harness_bin("replay"), "sync", p, os.path.join(scratch, os.path.basename(p)[:8]), prop],
+        inputs, jobs=12, timeout_s=3000, env={"VERIF_KNOWN": ",".join(sorted(all_known))})
+    cover = {
+        "states": states, "transitions": trans,
+        "traces_validated_against_impl": summ["evaluated"],
+        "evaluations": summ["evaluated"], "impl_steps_compared": summ["steps"],
+        "distinct_nontrivial": len(set(summ["nontrivial_keys"])),
+        "rule": "TLC explores every interleaving, at request granularity (status, sync, scan pages, diff, patch, "
+                "force merge) plus local critical sections, of the sync calls of 2 devices making up to 2 edits "
+                "each (concurrent while editing, sequential rounds after editing stops) and checks "
+                "ServerMonotone, NoAcceptedDropped, QuiescentConverged (a further round converges), NoLoss, "
+                "NoDup. Interleavings of the code-faithful model are drawn by simulation and replayed on real "
+                "devices whose SyncClient parks every request at a gate: the behaviour decides whose request "
+                "reaches the server next, the real client decides which request it is (a different request kind, "
+                "or a call that does not return, is a divergence); after every step the server log, the logs of "
+                "parked devices and finished calls' results are compared; accepted events must stay in the "
+                "server log. Non-trivial = behaviour in which two sync calls were in flight at the same time.",
+        "exhaustive": False, "model_exhaustive": True, "constants": base,
+        "simulated_behaviours": len(behs), "action_coverage": cov, "samples": summ["samples"][:2],
+        "deviations_modelled": devs_on, "counters": summ["counters"],
+        "model_mismatches": len(summ["mismatches"]),
+    }
+    assumptions = ["in-process SyncClient = the axum handlers of sos_server (same locks and server_helpers calls); "
+                   "the account write lock makes each request atomic on the server, which is what the model assumes",
+                   "CommitTree.tla lemmas; harness/src/sync_world.rs"]
+    vlib.write_evidence(prop, tier, "model_checking", cover, assumptions, time.time() - t0,
+                        len(summ["violations"]))
+    known_hits = [dict(k2, **all_known[k2["key"]]) for k2 in summ["known"] if k2["key"] in all_known]
+    return vlib.finish(prop, summ["violations"], known_hits)
